@@ -15,16 +15,8 @@ for d in seeded/*/; do
   if ! git -C /repo apply /verif/$d/patch.diff 2>/dev/null; then
      echo "| $id | $own | NO (conflicts with a fix commit) | - |" >> seeded/MATRIX.md; echo "$id: does not apply"; continue
   fi
-  det=""
-  for p in $props; do
-    ( VERIF_OUT=$out ./run_check.sh $p quick > $out/$id.$p.log 2>&1; echo $? > $out/$id.$p.rc ) &
-  done
-  wait
-  for p in $props; do
-    rc=$(cat $out/$id.$p.rc)
-    if [ "$rc" = "1" ]; then rules=$(grep -o '\[C[0-9][0-9]\.[a-z-]*\]' $out/$id.$p.log | sort -u | tr -d '[]' | tr '\n' ' '); det="$det $p($rules)"; fi
-    if [ "$rc" != "0" ] && [ "$rc" != "1" ]; then det="$det $p(ERROR rc=$rc)"; fi
-  done
+  VERIF_OUT=$out ./run_check.sh all quick > $out/$id.log 2>&1
+  det=$(tools/parse_all.py $out/$id.log); [ -n "$det" ] && det=" $det"
   git -C /repo checkout -q -- .
   echo "$id: $det"
   echo "| $id | $own | yes | ${det:-**none**} |" >> seeded/MATRIX.md
